@@ -37,6 +37,10 @@ def resolve_place(f: Func, p, depth=0, seen=frozenset()):
     return project(base, tuple(proj))
 
 
+# closure key -> captured-field projections in capture order (filled by Facts); the closure aggregate lists its operands in the same order
+CLOSURE_FIELDS: dict = {}
+
+
 def upvar_name(raw: str) -> str:
     """rustc names captured places `_ref__self__content` (by-ref capture of self.content)."""
     if raw.startswith("_ref__"):
@@ -58,6 +62,11 @@ def project(base, proj):
             for fname, fx in base[4]:
                 if fname == name:
                     hit = fx
+            if hit is None and base[1] == "closure" and e.startswith(".^"):
+                # a captured variable read through the closure value itself (closure body inlined into its parent)
+                names = CLOSURE_FIELDS.get(base[2], [])
+                if e in names and names.index(e) < len(base[4]):
+                    hit = base[4][names.index(e)][1]
             if hit is not None:
                 base = hit
                 proj = proj[1:]
